@@ -22,7 +22,7 @@ REQUIRED_BUCKETS = (['shape:' + s for s in SHAPES] + ['api:configurable', 'api:r
                      'nonprefix-binding-present', 'string-prefix-trap', 'via:scoped-get', 'via:scope',
                      'expect:TypeError', 'expect:ok', 'entry:list', 'entry:none', 'entry:slash', 'history:round2+', 'history:rebind-existing',
                      'history:bind-new-after-call', 'history:scoped-call-left-by-BaseException', 'call:caller-value-with-hostile-eq',
-                     'history:consumer-mutated-bound-value'])
+                     'history:consumer-mutated-bound-value', 'entry:derived', 'shape:decorated-with-shifted-positional-layout'])
 ORACLE_COUNTERS = ['oracle_evals', 'calls_compared']
 ALPHA = ['a', 'b', 'c']
 
@@ -35,8 +35,10 @@ def gen_scope_prog(rng):
       prog.append(['str', rng.choice(ALPHA + ['ab'])])
     elif k < 0.75:
       prog.append(['str', '/'.join(rng.choice(ALPHA) for _ in range(rng.choice([2, 3])))])
-    elif k < 0.9:
+    elif k < 0.85:
       prog.append(['list', [rng.choice(ALPHA) for _ in range(rng.randrange(0, 4))]])
+    elif k < 0.9:
+      prog.append(['derived', rng.choice(ALPHA)])   # s = gin.current_scope(); s.append(x); config_scope(s)
     elif k < 0.95:
       prog.append(['none'])
     else:
@@ -44,8 +46,19 @@ def gen_scope_prog(rng):
   return prog
 
 
+def scope_arg(e, cur):
+  if e[0] == 'derived':
+    return list(cur) + [e[1]]
+  return e[1] if e[0] in ('str', 'list') else (None if e[0] == 'none' else '')
+
+
 def iter_cases(ctx, rng, n):
   for i in range(n):
+    if i % 40 == 17:
+      yield {'kind': 'decorated-shift', 'bind': [x for x in ('p0', 'p1', 'k') if rng.random() < 0.6], 'npos': rng.choice([0, 1, 1, 2]),
+             'kw': [x for x in ('p1', 'k') if rng.random() < 0.3], 'scope': rng.choice(['', 'a', 'a/b']), 'api': rng.choice(['configurable', 'external']),
+             'bscope': rng.choice(['', '', 'a', 'a/b', 'b'])}
+      continue
     spec = probes.gen_spec(rng, shapes=[SHAPES[i % 4]])
     names = list(probes.all_named(spec))
     allow, deny = spec.get('allow'), spec.get('deny')
@@ -55,7 +68,7 @@ def iter_cases(ctx, rng, n):
     prog = gen_scope_prog(rng)
     m = models.ScopeModel()
     for e in prog:
-      m.enter(e[1] if e[0] in ('str', 'list') else (None if e[0] == 'none' else ''))
+      m.enter(scope_arg(e, m.cur))
     active = m.cur
     via = 'scope'
     if rng.random() < 0.2 and active:
@@ -176,6 +189,8 @@ def prelude(gin, bind=True):
 
 def run_case(ctx, case):
   import gin
+  if case.get('kind') == 'decorated-shift':
+    return run_decorated_shift(ctx, case)
   spec = case['spec']
   gin.clear_config()
   p = probes.build(spec)
@@ -209,11 +224,20 @@ def call_round(ctx, case, p, model, round_no):
   spec = case['spec']
   sm = models.ScopeModel()
   with contextlib.ExitStack() as st:
-    for e in case['prog']:
-      arg = e[1] if e[0] in ('str', 'list') else (None if e[0] == 'none' else '')
+    for ei, e in enumerate(case['prog']):
+      if e[0] == 'derived':
+        arg = gin.current_scope()
+        arg.append(e[1])                    # modifies the list current_scope() returned: must not touch the active scope
+        ctx.check(gin.current_scope() == sm.cur, 'scope-changed-through-returned-list', 'appending to the list returned by current_scope() changed the active scope to %r' % (
+            gin.current_scope(),))
+      else:
+        arg = scope_arg(e, sm.cur)
       ctx.bucket('entry:' + ('slash' if e[0] == 'str' and '/' in e[1] else e[0]))
+      if ei == len(case['prog']) - 1:
+        # runs when the innermost block has been left and the enclosing ones are still active
+        st.callback(after_innermost_exit, ctx, gin, p, model, sm.cur)
       st.enter_context(gin.config_scope(arg))
-      sm.enter(arg)
+      sm.enter(scope_arg(e, sm.cur))
     active = sm.cur
     ctx.check(gin.current_scope() == active, 'scope-model-mismatch', 'current_scope %r != model %r' % (gin.current_scope(), active))
     applicable = models.overlay(model, p.selector, active)
@@ -330,6 +354,79 @@ def call_round(ctx, case, p, model, round_no):
     if type(g) is list and name not in ('*',):
       g.append('MUTATED-BY-CONSUMER')
       ctx.bucket('history:consumer-mutated-bound-value')
+
+
+def after_innermost_exit(ctx, gin, p, model, enclosing):
+  ctx.count('checks_after_leaving_innermost_scope')
+  ctx.check(gin.current_scope() == enclosing, 'scope-model-mismatch', 'after leaving the innermost block current_scope %r != model %r' % (gin.current_scope(), enclosing))
+  gb = gin.get_bindings(p.selector)
+  want = models.overlay(model, p.selector, enclosing)
+  ctx.check(teq(dict(sorted(gb.items())), dict(sorted(want.items()))), 'get_bindings-differs-from-overlay',
+            'after leaving the innermost block: get_bindings under %r = %r, model %r' % (enclosing, gb, want))
+
+
+def shift_decorator(fn):
+  import functools
+
+  @functools.wraps(fn)
+  def wrapper(ctxv, *args, **kwargs):      # consumes a leading positional argument the inner function never sees
+    _SHIFT['ctx'].append(ctxv)
+    return fn(*args, **kwargs)
+  return wrapper
+
+
+_SHIFT = {'ctx': [], 'got': [], 'n': 0}
+
+
+def run_decorated_shift(ctx, case):
+  """A configurable behind a functools.wraps decorator whose wrapper has another positional layout than the function it wraps:
+  Gin calls the wrapper, so the caller's positional values are the wrapper's; bound parameters of the inner function arrive by keyword."""
+  import gin
+  gin.clear_config()
+  _SHIFT['n'] += 1
+  name = 'c1shift%d_%s' % (_SHIFT['n'], ctx.uid)
+
+  def inner(p0='d0', p1='d1', *, k='dk'):
+    _SHIFT['got'].append({'p0': p0, 'p1': p1, 'k': k})
+    return None
+  inner.__name__ = inner.__qualname__ = name
+  deco = shift_decorator(inner)
+  if case['api'] == 'configurable':
+    f = gin.configurable(name, module='c1')(deco)
+  else:
+    f = gin.external_configurable(deco, name=name, module='c1')
+  ctx.bucket('shape:decorated-with-shifted-positional-layout')
+  names = ['p0', 'p1']
+  npos = case['npos']
+  kw = [x for x in case['kw'] if x not in names[:npos]]
+  bind = [b for b in case['bind'] if b not in names[:npos]]    # a bound parameter also passed positionally is a TypeError in CPython terms: not generated
+  bound = {}
+  for b in bind:
+    v = ['B|%s|%s' % (case['bscope'], b)]
+    gin.bind_parameter((case['bscope'], 'c1.' + name, b), v)
+    bound[b] = v
+  applies = case['bscope'] == '' or case['scope'] == case['bscope'] or case['scope'].startswith(case['bscope'] + '/')
+  P = [caller_value(('pos', i), i) for i in range(npos)]
+  K = {x: caller_value(('kw', x), 7) for x in kw}
+  expect = {'p0': 'd0', 'p1': 'd1', 'k': 'dk'}
+  if applies:
+    expect.update(bound)
+  expect.update(dict(zip(names, P)))
+  expect.update(K)
+  marker = caller_value(('ctx', 0), 3)
+  del _SHIFT['got'][:], _SHIFT['ctx'][:]
+  try:
+    with gin.config_scope(case['scope'] or None):
+      f(marker, *P, **K)
+  except Exception as e:  # pylint: disable=broad-except
+    ctx.check(False, 'unexpected-exception', 'decorated configurable with shifted layout: call raised %s: %s' % (type(e).__name__, str(e)[:300]))
+    return
+  ctx.count('calls_compared')
+  got = _SHIFT['got'][-1] if _SHIFT['got'] else None
+  ok = got is not None and _SHIFT['ctx'] == [marker] and all(same_value(expect[x], got[x]) if not isinstance(expect[x], str) else expect[x] == got[x] for x in expect)
+  ctx.check(ok, 'reception-differs-from-model', 'decorated configurable (wrapper(ctx, *args, **kw) around inner(p0, p1, *, k)) called with %d positional after ctx and keywords %r '
+            'under %r, bindings %r at scope %r: inner received %r, expected %r' % (npos, sorted(K), case['scope'], sorted(bound), case['bscope'], got, expect))
+  ctx.fp('shift', npos, tuple(sorted(K)), tuple(sorted(bound)), case['scope'], case['bscope'], case['api'])
 
 
 def same_value(e, g):
